@@ -44,7 +44,7 @@ def main(ck):
       '+-2*mjMAXVAL / 0.5*mjMAXVAL forces need not produce a bad acceleration; only non-finite forces must (a finite 1e300 force can be cancelled by an equal constraint force)']
   q = ck.quick
   jobs_rel, jobs_asan = [], []
-  n_rel, n_asan = ck.budget(1200, 40000), ck.budget(60, 3000)
+  n_rel, n_asan = ck.budget(1200, 40000), ck.budget(60, 2000)
   sh_rel, sh_asan = (3, 1) if q else (8, 6)
   for s in range(sh_rel):
     jobs_rel.append(dict(family='inject', variant='rel', tier=ck.tier, seed=ck.seed, shard=s, n=n_rel // sh_rel))
@@ -56,7 +56,7 @@ def main(ck):
                         nsteps=40))
   jobs_rel.append(dict(family='forward', variant='rel', tier=ck.tier, seed=ck.seed, shard=0, n=ck.budget(150, 6000)))
   for s_ in range(1 if q else 4):
-    jobs_asan.append(dict(family='forward', variant='asan', tier=ck.tier, seed=ck.seed, shard=s_, n=ck.budget(40, 4000) // (1 if q else 4)))
+    jobs_asan.append(dict(family='forward', variant='asan', tier=ck.tier, seed=ck.seed, shard=s_, n=ck.budget(40, 2400) // (1 if q else 4)))
   jobs_rel.append(dict(family='fd', variant='rel', tier=ck.tier, seed=ck.seed, shard=0, n=ck.budget(12, 300)))
   jobs_asan.append(dict(family='fd', variant='asan', tier=ck.tier, seed=ck.seed, shard=0, n=ck.budget(6, 100)))
   from vf import build as vb
